@@ -1,7 +1,7 @@
 CONSTANTS
  Mods = {"MAIN","A","B"}
  Rules = {"ra","rb","xa"}
- ImpPats = {"*","r*"}
+ ImpPats = {"*","r*","*a"}
  ExpKinds = {"all","none","r*"}
  ReKinds = {"none","r*"}
  Types = {"rules","templates"}
